@@ -263,12 +263,12 @@ class VBus(EventBus):
             r = super().dispatch(event)
         except BaseException as ex:
             out = classify_reject(ex)
-            rec.log('Disp', b=self.name, e=rec.eid(event), ty=event.event_type, out=out, xp=xp, xpe=xpe,
+            rec.log('Disp', b=self.name, e=rec.eid(event), ty=event.event_type, out=out, xp=xp, xpe=xpe, n=int(getattr(event, 'n', -1)),
                     act=caller[1] if caller and caller[0] == 'A' else 0,
                     drv=caller[1] if caller and caller[0] == 'D' else 0,
                     fw=caller is None, same=False)
             raise
-        rec.log('Disp', b=self.name, e=rec.eid(event), ty=event.event_type, out='ok', xp=xp, xpe=xpe,
+        rec.log('Disp', b=self.name, e=rec.eid(event), ty=event.event_type, out='ok', xp=xp, xpe=xpe, n=int(getattr(event, 'n', -1)),
                 act=caller[1] if caller and caller[0] == 'A' else 0,
                 drv=caller[1] if caller and caller[0] == 'D' else 0,
                 fw=caller is None, same=r is event)
@@ -602,6 +602,7 @@ async def driver(rec, i, ops, state):
             usepred = len(op) > 6 and op[6]
             xid = state['nexp'] = state.get('nexp', 0) + 1
             rec.log('ExpB', d=i, x=xid, b=b.name, ty=ty, inc=inc, exc=exc_f, tmo=-1 if tmo is None else tmo)
+            rec.cur_expect = xid
             got = None
             err = ''
             if tmo is not None:
